@@ -62,8 +62,9 @@ def make_db(name):
             SpecialsSpec('~'), SpecialsSpec('!!', '[{'), SpecialsSpec('@', '*'), SpecialsSpec('--'),
             SpecialsSpec('---'), SpecialsSpec('\n\n'),
         ])
+        # the later category re-declares a macro and two specials sequences with OTHER signatures: the first one wins
         db.add_context_category('b', macros=[MacroSpec('ma', '{'), MacroSpec('mq', '[')],
-                                specials=[SpecialsSpec('&')])
+                                specials=[SpecialsSpec('&'), SpecialsSpec('!!', '{'), SpecialsSpec('~', '[')])
         if name == 'custom':
             db.set_unknown_macro_spec(MacroSpec(''))
             db.set_unknown_environment_spec(EnvironmentSpec(''))
@@ -165,6 +166,20 @@ def make_db(name):
                                              MacroSpec('op', ['t+', '[', '{']), MacroSpec('tq', ["e{^_'}"])])
         db.set_unknown_macro_spec(MacroSpec(''))
         db.set_unknown_environment_spec(EnvironmentSpec(''))
+    elif name in ('legacyspell', 'legacyspell-ref'):
+        # real code only: the same signatures declared through the pylatexenc-2 spelling (args_parser=
+        # MacroStandardArgsParser(argspec)) and - the reference the documents are generated from - as argument lists
+        from pylatexenc.macrospec import MacroStandardArgsParser
+        if name == 'legacyspell':
+            mk = lambda n, a: MacroSpec(n, args_parser=MacroStandardArgsParser(a))
+            mke = lambda n, a: EnvironmentSpec(n, args_parser=MacroStandardArgsParser(a))
+        else:
+            mk = lambda n, a: MacroSpec(n, list(a))
+            mke = lambda n, a: EnvironmentSpec(n, list(a))
+        db.add_context_category('l', macros=[mk(n, a) for n, a in LEGACYSPELL_MACROS] + [mk('!', '*[')],
+                                environments=[mke(n, a) for n, a in LEGACYSPELL_ENVS], specials=[SpecialsSpec('~')])
+        db.set_unknown_macro_spec(MacroSpec(''))
+        db.set_unknown_environment_spec(EnvironmentSpec(''))
     elif name == 'bare':
         db.set_unknown_macro_spec(MacroSpec(''))
         db.set_unknown_environment_spec(EnvironmentSpec(''))
@@ -186,7 +201,7 @@ def ctx_wire(name):
 
 
 CONTEXTS = ['default', 'custom', 'custom-nofallback', 'bare']
-UNMODELLED_CONTEXTS = ['commasep', 'legacyverb', 'chained', 'chain2', 'chain2-ref', 'defs', 'embell']          # wire entry 999 does not exist: model and implementation dump both say BADIN
+UNMODELLED_CONTEXTS = ['commasep', 'legacyverb', 'chained', 'chain2', 'chain2-ref', 'defs', 'embell', 'legacyspell', 'legacyspell-ref']          # wire entry 999 does not exist: model and implementation dump both say BADIN
 SYM_LEGACYVERB = ['\\lstinline', '\\vb', '[o]', '*', '|', 'x', ' ', '{a}', '+a b+', '\n', '\\begin{lst}', '\\end{lst}', '%c\n', '[', '$']
 # what the 'chained' context's specifications MEAN for the mode of each argument / body ('T' text, 'M' math, '=' inherit),
 # written down here and not read back from the delta objects of the library
@@ -240,6 +255,8 @@ def chain2_strings(rnd, n):
 
 
 SYM_EMBELL = ['\\ten', '\\tb', '\\op', '\\tq', '{T}', '^', '_', "'", '{a}', 'x', ' ', '^{c}', '_b', '+', '[o]', '\\z', '$', '%c\n', '\n']
+LEGACYSPELL_MACROS = [('la', '{*{'), ('lb', '[*{'), ('lc', '*[{'), ('ld', '{*['), ('le', '{[{'), ('lf', '*{{'), ('lz', '')]
+LEGACYSPELL_ENVS = [('ea', '*{'), ('eb', '[*'), ('ec', '')]
 SYM_COMMASEP = ['\\cs', '\\ck', '{', '}', ',', ',,', 'a', ' ', 'b,', '{c}', '%x\n', '$', '\\cs{', '\n\n', '[', '\\z']
 
 # ---------------------------------------------------------------------------
